@@ -53,7 +53,7 @@ _lookup("c11_metavalue_parse_K2", "h_metavalue", "mmd_engine_metavalue_for_key",
 # ---- update: has_metadata by (legacy, non-DFCC) contract replacement; DString = ghost sink so content is checked
 def _update(name, tier, src_n, nm, kn, vn, extra=(), note=None, unwind=None):
     uw = unwind or src_n + 4
-    U(name, ["C11", "C01"], "h_update", ["C11/update.c"], _LK_REPO, plain=True, lib=_C11_LIB, kind="bounded", tier=tier,
+    U(name, (["C11", "C01", "C06", "C20"] if name == "c11_update_S6" else ["C11", "C01"]), "h_update", ["C11/update.c"], _LK_REPO, plain=True, lib=_C11_LIB, kind="bounded", tier=tier,
       pre_instrument=["--replace-call-with-contract", "mmd_engine_has_metadata"],
       defines=["-DSRC_N=%d" % src_n, "-DNM=%d" % nm, "-DKN=%d" % kn, "-DVN=%d" % vn, "-DSINK_CAP=%d" % (src_n + kn + vn + 8), "-DTOLOWER_STRICT", "-DTOLOWER_7BIT"] + list(extra),
       bounds={"source length<=": src_n, "records<=": nm, "key length<=": kn, "value length<=": vn, "unwind": uw},
@@ -93,13 +93,13 @@ _strip("c11_strip_yaml_S8", "quick", 8, 3, modular=True, yaml=True, props=("C11"
 _strip("c11_strip_mod_S10", "thorough", 10, 3, modular=True)   # (S12 was measured once: ok, 2229 s -- too close to the timeout to register)
 
 # ---- mmd_engine_has_metadata: the records of ONE parse, never appended to an earlier request's (fix 3c42d25)
-U("c11_has_metadata_resets", ["C11"], "h_hasmeta", ["C11/hasmeta.c"], ["mmd.c", "stack.c", "token.c", "object_pool.c", "char.c"], enforce="mmd_engine_has_metadata",
+U("c11_has_metadata_resets", ["C11", "C01"], "h_hasmeta", ["C11/hasmeta.c"], ["mmd.c", "stack.c", "token.c", "object_pool.c", "char.c"], enforce="mmd_engine_has_metadata",
   replace=["mmd_engine_create", "mmd_tokenize_string", "mmd_parse_token_chain", "mmd_engine_free"], lib=(),
   cbmc_flags=["--unwind", "4", "--unwindset", "h_hasmeta.0:10,h_hasmeta.1:10,__CPROVER_contracts_write_set_check_assigns_clause_inclusion.0:20", "--object-bits", "10"], kind="bounded", bounds={"records already on the stack<=": 2, "records delivered by the parse<=": 2},
   functions=["mmd_engine_has_metadata"],
   callees={"mmd_tokenize_string/mmd_parse_token_chain": "contract: the parse appends g_parsed records to the metadata stack (generated lexer/parser: assumed)",
-           "mmd_engine_create/mmd_engine_free": "contract (fresh engine with its stacks)", "meta_free": "counting stub", "scan_meta_line": "stub: any value", "stack_pop/token_tree_free": "body"},
-  min_obligations=30, timeout=900, cost=90, nobody_ok=[], tier="thorough",
+           "mmd_engine_create/mmd_engine_free": "contract (fresh engine with its stacks; free requires every stack of the engine to be empty)", "meta_free": "counting stub", "scan_meta_line": "stub: any value", "stack_pop/token_tree_free": "body"},
+  min_obligations=30, timeout=900, cost=360, nobody_ok=[], tier="thorough",
   assumptions=["the tokenizer + lemon parser append exactly the leading block's records to e->metadata_stack (assumed contract)", NOFAIL])
 
 # ---- a blank line ends metadata recognition (mmd_assign_line_type with the scanners havocked)
